@@ -4,4 +4,15 @@ EXTENDS RingChannel
 CONSTANTS p1, p2, c1, c2
 Sym == Permutations({p1, p2}) \cup Permutations({c1, c2})
 SymP == Permutations({p1, p2})
+\* calls per process
+S11 == (p1 :> 1) @@ (p2 :> 1)
+S22 == (p1 :> 2) @@ (p2 :> 2)
+S21 == (p1 :> 2) @@ (p2 :> 1)
+S33 == (p1 :> 3) @@ (p2 :> 3)
+S32 == (p1 :> 3) @@ (p2 :> 2)
+R11 == (c1 :> 1) @@ (c2 :> 1)
+R22 == (c1 :> 2) @@ (c2 :> 2)
+R21 == (c1 :> 2) @@ (c2 :> 1)
+R2 == (c1 :> 2)
+R3 == (c1 :> 3)
 ====
